@@ -84,6 +84,14 @@ def run(ck: Check):
         json.dump({"sets": sets}, f)
     env = {"PARAM_FILE": params, "JAVA_TOOL_OPTIONS": "-XX:ParallelGCThreads=2"}
 
+    import time
+    T = {}
+    t0 = [time.time()]
+
+    def lap(name):
+        T[name] = round(time.time() - t0[0], 1)
+        t0[0] = time.time()
+    ck.extra["phase_wall_s"] = T
     # ---- role A: all interleavings
     acts = ("Replicate", "Deliver", "Inject", "Hop")
     cfgs = ["MC_Network_small.cfg", "MC_Network_mid.cfg"] if thorough else ["MC_Network_quick.cfg"]
@@ -91,19 +99,25 @@ def run(ck: Check):
     for cfg in cfgs:
         res = ck.tlc_expect_ok("MC_Network", cfg, env=env, required_actions=acts, timeout=2400, workers=6)
         ra.append("%s: %d distinct states" % (cfg, res.distinct))
-    res = ck.tlc("MC_Network", "MC_Network_anywhere.cfg", env=env, timeout=600, workers=2)
-    if res.ok or "SharedValueOncePerLink" not in (res.violated or ""):
-        raise Machinery("non-vacuity lemma: with copies split off anywhere a shared value must cross a link twice, "
-                        "but TLC reports: %s" % (res.violated,))
+    lap("role_A_tlc")
+    nonvac = "not run in the quick tier"
+    if thorough:
+        res = ck.tlc("MC_Network", "MC_Network_anywhere.cfg", env=env, timeout=600, workers=2)
+        if res.ok or "SharedValueOncePerLink" not in (res.violated or ""):
+            raise Machinery("non-vacuity lemma: with copies split off anywhere a shared value must cross a link "
+                            "twice, but TLC reports: %s" % (res.violated,))
+        nonvac = res.violated
     ck.extra["role_A"] = ("Network!Spec, every interleaving of Replicate/Deliver/Inject/Hop (%s): TypeOK, NoStuckPacket, "
                           "HopsAreLinkCrossings, SharedValueOncePerLink, AllDelivered and Confluent (terminal link "
                           "vector and hop count equal those of the fixed schedule => routing order is irrelevant) hold; "
-                          "with ReplicateAnywhere=TRUE TLC finds %s" % ("; ".join(ra), res.violated))
+                          "non-vacuity run with ReplicateAnywhere=TRUE: %s" % ("; ".join(ra), nonvac))
 
+    lap("nonvacuity_tlc")
     # ---- binding B: the fixed schedule on the whole quantifier, replayed into the implementation
     res = ck.tlc("MC_Network", "MC_Network_gen.cfg", env=env, coverage=False, timeout=3000, workers=6)
     if not res.ok:
         raise Machinery("generator failed: %s\n%s" % (res.violated, res.tail))
+    lap("generator_tlc")
     want = sum(4 * p["nmax"] * p["smax"] * len(p["volumes"]) for p in sets)
     recs = res.records
     if len(recs) != want:
@@ -136,9 +150,13 @@ def run(ck: Check):
                 % (rec["topo"], rec["mode"], n, s, v, tc, mt, rec["total_hops"], rec["max_traffic"]),
                 {"case": {k: rec[k] for k in ("topo", "mode", "n", "s", "v")},
                  "expected_total_hops": rec["total_hops"], "expected_max_traffic": rec["max_traffic"]})
-    for r in (recs[len(recs) // 3], recs[-1], recs[len(recs) // 2]):
-        ck.sample({"case": {k: r[k] for k in ("topo", "mode", "n", "s", "v")},
-                   "expected_total_hops": r["total_hops"], "expected_max_traffic": r["max_traffic"]})
+    lap("replay_into_implementation")
+    want_samples = {("mesh", "multicast", 4, 2), ("mesh", "unicast", 32, 8), ("switch", "unicast", 5, 3),
+                    ("switch", "multicast", 7, 1)}
+    for r in recs:
+        if (r["topo"], r["mode"], r["n"], r["s"]) in want_samples and r["v"] == sets[0]["volumes"][-1]:
+            ck.sample({"case": {k: r[k] for k in ("topo", "mode", "n", "s", "v")},
+                       "expected_total_hops": r["total_hops"], "expected_max_traffic": r["max_traffic"]})
     ck.exhaustive = True
     ck.extra["exhaustive_over"] = sets
     ck.extra["not_compared"] = "PerLoopTransferCost.max_hops (not named by the property)"
